@@ -175,6 +175,8 @@ def workloads():
     W["tp/site-chunks"] = (lambda: [da.isel(time=0).chunk({"site": 1}).spec.tp()], lambda: [da.isel(time=0).spec.tp()])
     W["ptm1/site-chunks"] = (lambda: [da.chunk({"site": 1}).spec.partition.ptm1(*[auxc({"site": 1})[k] for k in ("wspd", "wdir", "dpt")], swells=2)],
                              lambda: [da.spec.partition.ptm1(aux["wspd"], aux["wdir"], aux["dpt"], swells=2)])
+    W["ptm2/time-chunks"] = (lambda: [da.isel(site=0).chunk({"time": 1}).spec.partition.ptm2(*[auxc({"time": 1})[k].isel(site=0) for k in ("wspd", "wdir", "dpt")], swells=2)],
+                             lambda: [da.isel(site=0).spec.partition.ptm2(*[aux[k].isel(site=0) for k in ("wspd", "wdir", "dpt")], swells=2)])
     W["mixed-shapes ptm3(5x4) + ptm3(3x6)"] = (lambda: [da.isel(site=0).chunk({"time": 1}).spec.partition.ptm3(parts=2), ob.chunk({"time": 2}).spec.partition.ptm3(parts=3)],
                                                lambda: [da.isel(site=0).spec.partition.ptm3(parts=2), ob.spec.partition.ptm3(parts=3)])
     W["ptm3(smooth)/time-chunks"] = (lambda: [ob.chunk({"time": 2}).spec.partition.ptm3(parts=2, smooth=True)], lambda: [ob.spec.partition.ptm3(parts=2, smooth=True)])
@@ -264,6 +266,10 @@ def thread_workloads():
     W["np_ptm1(4x5) || np_ptm2(4x5)"] = lambda: [lambda: np_ptm1(zB, zB, fB, dB, 10.0, 20.0, 30.0, swells=2, ihmax=50),
                                                   lambda: __import__("wavespectra.partition.partition", fromlist=["np_ptm2"]).np_ptm2(zB2, zB2, fB, dB, 15.0, 200.0, 30.0, swells=2, ihmax=50)]
 
+    np_ptm2 = __import__("wavespectra.partition.partition", fromlist=["np_ptm2"]).np_ptm2
+    W["np_ptm2(4x5) || np_ptm2(4x5)"] = lambda: [lambda: np_ptm2(zB, zB, fB, dB, 10.0, 20.0, 30.0, swells=2, ihmax=50), lambda: np_ptm2(zB2, zB2, fB, dB, 15.0, 200.0, 30.0, swells=2, ihmax=50)]
+    W["np_ptm1(4x5) || np_ptm1(4x5)"] = lambda: [lambda: np_ptm1(zB, zB, fB, dB, 10.0, 20.0, 30.0, swells=2, ihmax=50), lambda: np_ptm1(zB2, zB2, fB, dB, 15.0, 200.0, 30.0, swells=2, ihmax=50)]
+
     def w3():
         a, b = mkda(zB, fB, dB), mkda(zA, fA, dA)
         return [lambda: a.spec.tp().values, lambda: b.spec.crsd().values]
@@ -340,6 +346,21 @@ def run_free_item(it):
                 if not ok:
                     res["violations"].append(Violation(PROP, "%s|equals-sequential-result|free-running-threads" % name.split("/")[0], "workload %s with %d worker threads differs" % (name, w),
                                                        dict(kind="free", name=name, workers=w)))
+    # larger spectra, one per chunk, so that calls into the native routine overlap if it ever runs without the GIL
+    import xarray as xr
+    nfb, ndb, nb = 24, 24, 48
+    i, j = np.meshgrid(np.arange(nfb), np.arange(ndb), indexing="ij")
+    big = np.array([5.0 / (1 + (i - 4 - k % 7) ** 2 + (j - 3 * (k % 5)) ** 2) + 3.0 / (1 + (i - 15) ** 2 + (j - 12 - k % 9) ** 2) + 0.001 * ((i * 7 + j * 3 + k) % 11) for k in range(nb)])
+    bda = xr.DataArray(big, dims=["time", "freq", "dir"], coords={"time": np.arange(nb), "freq": 0.04 * 1.08 ** np.arange(nfb), "dir": np.arange(ndb) * 15.0}, name="efth")
+    refb = bda.spec.partition.ptm3(parts=3).values
+    for w in (4, 16):
+        for rep in range(it["repeats"] + 1):
+            out = bda.chunk({"time": 1}).spec.partition.ptm3(parts=3).compute(scheduler="threads", num_workers=w)
+            res["evals"] += 1
+            if not np.array_equal(out.values, refb):
+                res["violations"].append(Violation(PROP, "ptm3|equals-sequential-result|free-running-threads", "ptm3 on 48 one-spectrum chunks of 24x24 with %d worker threads differs from the in-memory result" % w,
+                                                   dict(kind="free", name="big-ptm3", workers=w)))
+                break
     res["parts"]["D:free-running threaded scheduler"] = res["evals"]
     return res
 
@@ -386,7 +407,7 @@ def run(rep, tier, seed, parts=None):
                 "chunkings; quick: every single-dimension composition, all-singletons and every pair of two-part splits) x %d operations, "
                 "synchronous scheduler, vs the in-memory result. B: every execution order (linear extension; or all orders within a "
                 "deviation bound) of the real dask graphs of 6 workloads incl. two datasets of different grid shapes in one graph, under a "
-                "controlled scheduler. C: every interleaving of 2 threads x 6 workloads with at most 1 (thorough: 2 for the numpy-level "
+                "controlled scheduler. C: every interleaving of 2 threads x 8 workloads with at most 1 (thorough: 2 for the numpy-level "
                 "workloads) preemptions; scheduling points = line events in wavespectra frames. D: free-running threaded scheduler with "
                 "1,2,4,16 workers. States = executions with a distinct schedule; transitions = scheduling decisions; traces = executions "
                 "(the real code is what runs). Non-trivial = chunking with a split / schedule of a graph with a choice." % len(operations(tier)))
